@@ -91,7 +91,7 @@ def rich_models(draw, max_bodies=4, assets=True, defaults=True, frames=True, rep
       comp['saveinertial'] = 'true'
     if draw(st.integers(0, 11)) == 0:      # rare: the writer drops it (C32 finding)
       comp['inertiagrouprange'] = '0 %d' % draw(st.integers(2, 5))
-    if fusestatic and draw(st.integers(0, 6)) == 0:
+    if fusestatic and draw(st.integers(0, 11)) == 0:   # rare: several known fusestatic findings mask other things
       comp['fusestatic'] = 'true'
   if usethread is not None:
     comp['usethread'] = 'true' if usethread else 'false'
